@@ -139,7 +139,7 @@ def digitsToNat (base : Nat) (ds : List Nat) : Nat := ds.foldl (fun a d => a * b
     `sys.int_max_str_digits` digits (leading zeros count) with `ValueError`. -/
 def pyIntDec (s : PStr) : Except Err Nat :=
   if s.isEmpty || !s.all isDigit then .error .valueError
-  else if Gen.intMaxStrDigits ≠ 0 ∧ s.length > Gen.intMaxStrDigits then .error .valueError
+  else if Gen.intMaxStrDigitsC06 ≠ 0 ∧ s.length > Gen.intMaxStrDigitsC06 then .error .valueError
   else .ok (digitsToNat 10 (s.map (· - 48)))
 
 /-- `int(s, 16)` over the same alphabet: an optional `0x`/`0X` prefix, then at least one hex digit; no digit limit
